@@ -1243,3 +1243,461 @@ func timerRearmedSeen(c *Check, fis []*FuncInfo) {
 		})
 	}
 }
+
+// ---- C19.R20: the pool never creates a bucket of negative capacity.
+// pool.Return creates a key's bucket with make(chan Conn, cfg.MaxConnsPerKey); the value is `conn_max_idle_count` of
+// target.remote, any integer. A negative one panics ('makechan: size out of range') in the first Return for a new key –
+// in the goroutine that just committed a delivery. "None of which crash": pool.New clamps or replaces a negative value
+// before it keeps the configuration (decided in the world 'the field is -1': every path through New assigns the field).
+func c19BucketCapacityNotNegative(c *Check, rule string) {
+	c.Rule(rule, "smtpconn/pool: every configuration field that is used as the capacity of a make(chan …) is assigned by pool.New on every path on which it is negative (clamped or replaced) – `conn_max_idle_count -1` cannot make the first Return of a new key panic", 1)
+	p := c.P
+	pk := p.Pkg("internal/smtpconn/pool")
+	if pk == nil {
+		c.Fail(rule, "package", token.NoPos, "anchor unresolved")
+		return
+	}
+	info := pk.TypesInfo
+	fields := map[*types.Var]token.Pos{}
+	p.AllFuncs([]*packagesPkg{pk}, func(fi *FuncInfo) {
+		if fi.Decl.Body == nil || strings.HasSuffix(p.Fset.Position(fi.Decl.Pos()).Filename, "_test.go") {
+			return
+		}
+		ast.Inspect(fi.Decl.Body, func(x ast.Node) bool {
+			call, ok := x.(*ast.CallExpr)
+			if !ok || len(call.Args) != 2 {
+				return true
+			}
+			id, isID := ast.Unparen(call.Fun).(*ast.Ident)
+			if !isID || id.Name != "make" {
+				return true
+			}
+			if t := info.TypeOf(call.Args[0]); t == nil {
+				return true
+			} else if _, isChan := t.Underlying().(*types.Chan); !isChan {
+				return true
+			}
+			if fv := fieldOf(info, call.Args[1]); fv != nil {
+				fields[fv] = call.Pos()
+			} else if tv, has := info.Types[call.Args[1]]; !has || tv.Value == nil {
+				if _, isVar := objOf(info, call.Args[1]).(*types.Var); !isVar {
+					c.Fail(rule, fi.Name()+":make", call.Pos(), "undecided: channel capacity "+exprStr(call.Args[1]))
+				}
+			}
+			return true
+		})
+	})
+	if len(fields) == 0 {
+		c.Fail(rule, "sites", token.NoPos, "anchor unresolved: no bucket channel is created from a configuration field")
+		return
+	}
+	r := c.need(rule, "internal/smtpconn/pool", "", "New")
+	if r == nil {
+		return
+	}
+	for fv, pos := range fields {
+		var stores []Pt
+		for _, pt := range r.F.Points() {
+			as, ok := pt.Node().(*ast.AssignStmt)
+			if !ok {
+				continue
+			}
+			for _, l := range as.Lhs {
+				if fieldOf(r.Info, l) == fv {
+					stores = append(stores, pt)
+				}
+			}
+		}
+		world := r.F.World(func(atom ast.Expr) (bool, bool) {
+			be, ok := ast.Unparen(atom).(*ast.BinaryExpr)
+			if !ok || fieldOf(r.Info, be.X) != fv {
+				return false, false
+			}
+			tv, has := r.Info.Types[be.Y]
+			if !has || tv.Value == nil {
+				return false, false
+			}
+			cv, isInt := constInt(tv)
+			if !isInt {
+				return false, false
+			}
+			const val = int64(-1)
+			switch be.Op {
+			case token.LSS:
+				return val < cv, true
+			case token.LEQ:
+				return val <= cv, true
+			case token.GTR:
+				return val > cv, true
+			case token.GEQ:
+				return val >= cv, true
+			case token.EQL:
+				return val == cv, true
+			case token.NEQ:
+				return val != cv, true
+			}
+			return false, false
+		})
+		path, found := r.F.Reach(Query{From: r.Entry(), Inclusive: true, Target: r.F.IsExitPt, Avoid: isPt(stores), AvoidEdge: world})
+		c.Hold(rule, "New:"+fv.Name(), pos, !found, "pool.New keeps a negative "+fv.Name()+" ("+r.F.Describe(path)+") and "+p.Pos(pos)+" hands it to make(chan …): `conn_max_idle_count -1` makes the first Return for a new key panic 'makechan: size out of range' in the goroutine that has just finished a delivery")
+	}
+}
+
+// ---- C14.R9: the password reaches the hash function whole.
+// "Succeeds exactly when the supplied password is the one most recently set": every byte of the password takes part.
+// The functions registered in pass_table's HashCompute / HashVerify tables (and the legacy SHA-256 pair) hand their
+// password parameter to the key-derivation function as `[]byte(pass)` – the whole string. A copy into a fixed-size
+// scratch array (C14S: 256 bytes, "so it does not linger on the heap"; `copy` truncates silently), a slice or an index
+// of the parameter lets every password with the same prefix in.
+func c14PasswordHashedWhole(c *Check, rule string) {
+	c.Rule(rule, "pass_table: in every hash compute / verify function the password parameter is only ever used whole – converted to []byte or passed on as it is – never sliced, indexed, measured or copied into a buffer of fixed size (a truncated password admits every password with the same prefix)", 4)
+	p := c.P
+	pk := p.Pkg("internal/auth/pass_table")
+	if pk == nil {
+		c.Fail(rule, "package", token.NoPos, "anchor unresolved")
+		return
+	}
+	info := pk.TypesInfo
+	n := 0
+	p.AllFuncs([]*packagesPkg{pk}, func(fi *FuncInfo) {
+		if fi.Decl.Body == nil || fi.Decl.Recv != nil || strings.HasSuffix(p.Fset.Position(fi.Decl.Pos()).Filename, "_test.go") {
+			return
+		}
+		sig, _ := fi.Obj.Type().(*types.Signature)
+		if sig == nil {
+			return
+		}
+		// FuncHashCompute: (HashOpts, string) (string, error); FuncHashVerify: (string, string) error
+		var pass *types.Var
+		switch {
+		case sig.Params().Len() == 2 && sig.Results().Len() == 2 && isStringType(sig.Params().At(1).Type()) && isStringType(sig.Results().At(0).Type()) && isErrorType(sig.Results().At(1).Type()):
+			if nt, ok := derefNamed(sig.Params().At(0).Type()); ok && nt.Obj().Name() == "HashOpts" {
+				pass = sig.Params().At(1)
+			}
+		case sig.Params().Len() == 2 && sig.Results().Len() == 1 && isStringType(sig.Params().At(0).Type()) && isStringType(sig.Params().At(1).Type()) && isErrorType(sig.Results().At(0).Type()):
+			if strings.HasPrefix(fi.Obj.Name(), "verify") {
+				pass = sig.Params().At(0)
+			}
+		}
+		if pass == nil {
+			return
+		}
+		n++
+		c.SawFunc(fi.Name())
+		msg, uses := "", 0
+		var stack []ast.Node
+		ast.Inspect(fi.Decl.Body, func(x ast.Node) bool {
+			if x == nil {
+				stack = stack[:len(stack)-1]
+				return true
+			}
+			stack = append(stack, x)
+			id, ok := x.(*ast.Ident)
+			if !ok || info.Uses[id] != pass || len(stack) < 2 {
+				return true
+			}
+			uses++
+			parent := stack[len(stack)-2]
+			if pe, isParen := parent.(*ast.ParenExpr); isParen && len(stack) >= 3 {
+				_ = pe
+				parent = stack[len(stack)-3]
+			}
+			switch pn := parent.(type) {
+			case *ast.CallExpr:
+				if tv, has := info.Types[pn.Fun]; has && tv.IsType() {
+					if isByteSlice(tv.Type) {
+						return true // []byte(pass)
+					}
+					msg = "line " + itoa(p0(p, id.Pos())) + ": the password is converted to " + tv.Type.String()
+					return true
+				}
+				if fid, isID := ast.Unparen(pn.Fun).(*ast.Ident); isID {
+					if _, isB := info.Uses[fid].(*types.Builtin); isB {
+						msg = "line " + itoa(p0(p, id.Pos())) + ": the password is an argument of the builtin " + fid.Name + " (`copy` into a buffer of fixed size truncates silently; a length taken for a bound does the same)"
+						return true
+					}
+				}
+				return true // handed on whole
+			case *ast.SliceExpr, *ast.IndexExpr:
+				msg = "line " + itoa(p0(p, id.Pos())) + ": only a part of the password is used (" + exprStr(parent.(ast.Expr)) + ")"
+			case *ast.RangeStmt:
+				msg = "line " + itoa(p0(p, id.Pos())) + ": the password is processed character by character"
+			}
+			return true
+		})
+		if uses == 0 {
+			msg = "the password parameter is never used"
+		}
+		if msg != "" {
+			msg += ": every password that agrees with the stored one on the part that is hashed authenticates (set a password longer than the buffer, log in with its prefix)"
+		}
+		c.Hold(rule, fi.Name(), fi.Decl.Pos(), msg == "", msg)
+	})
+	if n == 0 {
+		c.Fail(rule, "functions", token.NoPos, "anchor unresolved: no hash compute / verify function found in pass_table")
+	}
+}
+
+func isByteSlice(t types.Type) bool {
+	sl, ok := t.Underlying().(*types.Slice)
+	if !ok {
+		return false
+	}
+	b, isB := sl.Elem().Underlying().(*types.Basic)
+	return isB && b.Kind() == types.Uint8
+}
+
+// ---- C14.R10: every endpoint finds the account mapping in the same place.
+// "PLAIN and LOGIN give the same decision and identity for the same credentials (with or without a user-name mapping
+// table)" – and so do the endpoints: `auth_map` and `auth_map_normalize` are written once, at the top level of the
+// configuration, and inherited by the smtp / submission, imap and dovecot_sasld endpoints. An endpoint that registers
+// one of them without the inherit flag (C14T: `auth_map` in endpoint.smtp, "like storage_map next door") runs with no
+// mapping while its siblings – and its own normaliser – use the global one: the mapped account's password is refused
+// on submission, and an entry that happens to exist under the unmapped name opens the session for another account.
+func c14AccountMapInheritedEverywhere(c *Check, rule string) {
+	c.Rule(rule, "the directives auth_map and auth_map_normalize are registered with the same inherit-from-globals flag by every endpoint (all true today): no endpoint authenticates against the unmapped name while its siblings apply the global mapping", 4)
+	p := c.P
+	type site struct {
+		where string
+		pos   token.Pos
+		name  string
+		inh   string
+	}
+	var sites []site
+	for _, pk := range p.ServerPkgs() {
+		if !strings.Contains(pk.PkgPath, "/internal/endpoint/") {
+			continue
+		}
+		info := pk.TypesInfo
+		pk := pk
+		p.AllFuncs([]*packagesPkg{pk}, func(fi *FuncInfo) {
+			if fi.Decl.Body == nil || strings.HasSuffix(p.Fset.Position(fi.Decl.Pos()).Filename, "_test.go") {
+				return
+			}
+			ast.Inspect(fi.Decl.Body, func(x ast.Node) bool {
+				call, ok := x.(*ast.CallExpr)
+				if !ok {
+					return true
+				}
+				fn := callee(info, call)
+				if fn == nil || fn.Pkg() == nil || !strings.Contains(fn.Pkg().Path(), "/framework/config") {
+					return true
+				}
+				// the directive name is the first string constant argument, the inherit flag the bool that follows it
+				for i, a := range call.Args {
+					tv, has := info.Types[a]
+					if !has || tv.Value == nil || !isStringType(tv.Type) {
+						continue
+					}
+					name := strings.Trim(tv.Value.ExactString(), "\"")
+					if name != "auth_map" && name != "auth_map_normalize" {
+						break
+					}
+					inh := "?"
+					if i+1 < len(call.Args) {
+						if tv2, has2 := info.Types[call.Args[i+1]]; has2 && tv2.Value != nil && isBoolType(tv2.Type) {
+							inh = tv2.Value.String()
+						}
+					}
+					sites = append(sites, site{fi.Name(), call.Pos(), name, inh})
+					break
+				}
+				return true
+			})
+		})
+	}
+	if len(sites) == 0 {
+		c.Fail(rule, "sites", token.NoPos, "anchor unresolved: no endpoint registers auth_map")
+		return
+	}
+	// the majority value is the reference (all agree today)
+	count := map[string]int{}
+	for _, s := range sites {
+		count[s.inh]++
+	}
+	ref, best := "", -1
+	for v, k := range count {
+		if k > best || (k == best && v == "true") {
+			ref, best = v, k
+		}
+	}
+	for _, s := range sites {
+		c.Hold(rule, s.where+":"+s.name, s.pos, s.inh == ref && s.inh != "?", "the directive "+s.name+" is registered with inherit-from-globals = "+s.inh+" here and = "+ref+" by the other endpoints: with the mapping written at the top level of the configuration (the documented multi-domain set-up) this endpoint authenticates the unmapped login name – the mapped account's password is refused, and a credentials entry that exists under the unmapped name authenticates the session for another account – while IMAP and the other listeners apply the mapping")
+	}
+}
+
+// ---- C07.R18: the identifiers DMARC aligns carry no resolver spelling.
+// check.spf asks the SPF library with fully qualified names (dns.FQDN adds the trailing dot the resolver wants) and
+// reports the identities it judged in an authres.SPFResult – Helo and From – which dmarc.EvaluateAlignment compares
+// with the From-header domain (strict: EqualFold; relaxed: same organisational domain, where an empty last label is an
+// error). A reported identity that went through dns.FQDN (C07S: "compute the HELO name once", stored with the dot)
+// never aligns: for a bounce (null reverse-path, SPF passes on HELO) the verdict becomes fail and the published reject
+// is applied to legitimate mail. Decided in check.spf: no value stored into SPFResult.Helo / From derives from a
+// dns.FQDN call – through locals and through fields of the check's state (every store to the field in the package).
+func c07ReportedIdentityNotFQDN(c *Check, rule string) {
+	c.Rule(rule, "check.spf: the HELO and MAIL FROM identities reported in the SPF result (the operands of DMARC alignment) never derive from dns.FQDN – the trailing dot is for the resolver only", 2)
+	p := c.P
+	pk := p.Pkg("internal/check/spf")
+	if pk == nil {
+		c.Fail(rule, "package", token.NoPos, "anchor unresolved")
+		return
+	}
+	info := pk.TypesInfo
+	var fqdnIn func(body ast.Node, e ast.Expr, depth int) string
+	fqdnIn = func(body ast.Node, e ast.Expr, depth int) string {
+		if e == nil || depth > 4 {
+			return ""
+		}
+		found := ""
+		ast.Inspect(e, func(x ast.Node) bool {
+			if found != "" {
+				return false
+			}
+			switch y := x.(type) {
+			case *ast.CallExpr:
+				if isCall(info, y, "~/framework/dns.FQDN") {
+					found = exprStr(y)
+					return false
+				}
+			case *ast.SelectorExpr:
+				if fv := fieldOf(info, y); fv != nil && fv.Pkg() == pk.Types && isStringType(fv.Type()) {
+					// every store to the field in the package
+					for _, f := range pk.Syntax {
+						if strings.HasSuffix(p.Fset.Position(f.Pos()).Filename, "_test.go") {
+							continue
+						}
+						ast.Inspect(f, func(z ast.Node) bool {
+							switch s := z.(type) {
+							case *ast.AssignStmt:
+								for i, l := range s.Lhs {
+									if fieldOf(info, l) == fv && len(s.Rhs) == len(s.Lhs) {
+										if w := fqdnIn(f, s.Rhs[i], depth+1); w != "" && found == "" {
+											found = w + " (stored in field " + fv.Name() + ")"
+										}
+									}
+								}
+							case *ast.KeyValueExpr:
+								if id, ok := s.Key.(*ast.Ident); ok && info.Uses[id] == fv {
+									if w := fqdnIn(f, s.Value, depth+1); w != "" && found == "" {
+										found = w + " (stored in field " + fv.Name() + ")"
+									}
+								}
+							}
+							return true
+						})
+					}
+				}
+			case *ast.Ident:
+				if v, ok := info.Uses[y].(*types.Var); ok && !v.IsField() && v.Pkg() == pk.Types && v.Parent() != pk.Types.Scope() && isStringType(v.Type()) {
+					for _, d := range defsOfObj(info, body, v) {
+						if d == e || within(d, y) {
+							continue
+						}
+						if w := fqdnIn(body, d, depth+1); w != "" && found == "" {
+							found = w + " (through " + v.Name() + ")"
+						}
+					}
+				}
+			}
+			return true
+		})
+		return found
+	}
+	n := 0
+	p.AllFuncs([]*packagesPkg{pk}, func(fi *FuncInfo) {
+		if fi.Decl.Body == nil || strings.HasSuffix(p.Fset.Position(fi.Decl.Pos()).Filename, "_test.go") {
+			return
+		}
+		k := 0
+		check := func(field string, val ast.Expr, pos token.Pos) {
+			n++
+			k++
+			c.SawFunc(fi.Name())
+			w := fqdnIn(fi.Decl.Body, val, 0)
+			c.Hold(rule, fi.Name()+":"+field+itoa(k), pos, w == "", "the "+field+" identity reported in the SPF result derives from "+w+": with the trailing dot it is never aligned with the From-header domain (strict mode compares the strings, relaxed mode fails on the empty last label) – a bounce whose SPF passes on HELO gets dmarc=fail and the published reject / quarantine")
+		}
+		ast.Inspect(fi.Decl.Body, func(x ast.Node) bool {
+			switch s := x.(type) {
+			case *ast.CompositeLit:
+				t := info.TypeOf(s)
+				if t == nil {
+					return true
+				}
+				nt, ok := derefNamed(t)
+				if !ok || nt.Obj().Name() != "SPFResult" {
+					return true
+				}
+				for _, el := range s.Elts {
+					if kv, isKV := el.(*ast.KeyValueExpr); isKV {
+						if id, isID := kv.Key.(*ast.Ident); isID && (id.Name == "Helo" || id.Name == "From") {
+							check(id.Name, kv.Value, kv.Pos())
+						}
+					}
+				}
+			case *ast.AssignStmt:
+				for i, l := range s.Lhs {
+					sel, isSel := ast.Unparen(l).(*ast.SelectorExpr)
+					if !isSel || (sel.Sel.Name != "Helo" && sel.Sel.Name != "From") || len(s.Rhs) != len(s.Lhs) {
+						continue
+					}
+					if t := info.TypeOf(sel.X); t != nil {
+						if nt, ok := derefNamed(t); ok && nt.Obj().Name() == "SPFResult" {
+							check(sel.Sel.Name, s.Rhs[i], s.Pos())
+						}
+					}
+				}
+			}
+			return true
+		})
+	})
+	if n == 0 {
+		c.Fail(rule, "sites", token.NoPos, "anchor unresolved: check.spf builds no SPFResult")
+	}
+}
+
+// ---- C07.R19: alignment compares domains, not spellings.
+// The From-header domain reaches the verifier in A-labels (ExtractFromDomain converts it with the package's IDNA
+// profile, because the DNS, the public suffix list and DKIM's d= speak A-labels). The SPF identities are what the
+// client wrote in the envelope: under SMTPUTF8 `MAIL FROM:<user@bücher.example>` is a U-label domain. isAligned compared
+// the two as strings (EqualFold / organisational domain of each): the same domain in two spellings was "not aligned" –
+// SPF passes, DMARC fails, the published reject refuses legitimate mail. Decided on isAligned: on every path to a
+// return each of the two domain parameters has gone through a ToASCII of an idna profile.
+func c07AlignmentOnALabels(c *Check, rule string) {
+	c.Rule(rule, "dmarc.isAligned: both domains are converted with an IDNA profile (ToASCII) before they are compared, on every path – the U-label spelling of an SMTPUTF8 envelope domain aligns with the A-label form of the From-header domain", 2)
+	r := c.need(rule, "internal/dmarc", "", "isAligned")
+	if r == nil {
+		return
+	}
+	info := r.Info
+	sig := r.FI.Obj.Type().(*types.Signature)
+	k := 0
+	for i := 0; i < sig.Params().Len(); i++ {
+		pv := sig.Params().At(i)
+		if b, isBasic := types.Unalias(pv.Type()).(*types.Basic); !isBasic || b.Kind() != types.String {
+			continue // the alignment mode is a named string type
+		}
+		k++
+		var conv []Pt
+		for _, pt := range r.F.Points() {
+			if pt.Node() == nil {
+				continue
+			}
+			for _, call := range callsAt(pt.Node()) {
+				fn := callee(info, call)
+				if fn == nil || fn.Pkg() == nil || !strings.HasSuffix(fn.Pkg().Path(), "/idna") || fn.Name() != "ToASCII" {
+					continue
+				}
+				for _, a := range call.Args {
+					if mentions(info, a, pv) {
+						conv = append(conv, pt)
+					}
+				}
+			}
+		}
+		path, found := r.F.Reach(Query{From: r.Entry(), Inclusive: true, Target: r.F.IsExitPt, Avoid: isPt(conv)})
+		c.Hold(rule, "isAligned:"+pv.Name(), r.FI.Decl.Pos(), len(conv) > 0 && !found, "isAligned can compare "+pv.Name()+" without converting it to A-labels ("+r.F.Describe(path)+"): the From-header domain arrives in A-labels, an SPF identity from an SMTPUTF8 envelope in U-labels – `MAIL FROM:<user@bücher.example>` with `From: user@bücher.example` passes SPF, is 'not aligned', and the domain's p=reject refuses the message")
+	}
+	if k < 2 {
+		c.Fail(rule, "isAligned:params", r.FI.Decl.Pos(), "undecided: isAligned has fewer than two domain parameters")
+	}
+}
